@@ -2,6 +2,7 @@ package props
 
 import (
 	"fmt"
+	"math"
 	"runtime/debug"
 	"strings"
 
@@ -229,7 +230,7 @@ func runC19(r *core.Run) {
 
 	N := core.Pick(r, 9, 14)
 	r.Bound("trees", fmt.Sprintf("every ordered tree with 1..%d nodes", N))
-	core.Clause(r, "all-trees", core.Opts{Rule: "every ordered rooted tree (Łukasiewicz code) up to the node bound, PreOrder and PostOrder each vs the recursive reference; non-trivial = at least 3 nodes"},
+	core.Clause(r, "all-trees", core.Opts{Rule: "every ordered rooted tree (Łukasiewicz code) up to the node bound (built node by node, from one slab, with empty non-nil leaf slices, and with 5 payload variants: all blank, blank leaves, blank inner nodes, identical payloads, infinite distances), PreOrder and PostOrder each vs the recursive reference by node identity; non-trivial = at least 3 nodes"},
 		func(emit func(c19Tree) bool) {
 			enum.TreesUpTo(N, func(c []int) bool { return emit(c19Tree{append([]int(nil), c...)}) })
 		},
@@ -262,6 +263,27 @@ func runC19(r *core.Run) {
 					return o3
 				}
 				out.Evals += o3.Evals
+			}
+			// node payloads: the traversal is about the Children structure only; what a node carries
+			// (no name, zero distance, equal names, NaN) must not decide whether or when it is yielded
+			for variant, what := range []string{"every node blank (empty name, distance 0)", "blank leaves", "blank inner nodes", "all nodes carry the same name and distance", "distances +Inf and -Inf"} {
+				root, nodes = buildTree(c.Code)
+				for _, n := range nodes {
+					leaf := len(n.Children) == 0
+					switch {
+					case variant == 0, variant == 1 && leaf, variant == 2 && !leaf:
+						n.Name, n.Distance = "", 0
+					case variant == 3:
+						n.Name, n.Distance = "same", 1
+					case variant == 4:
+						n.Distance = []float64{math.Inf(1), math.Inf(-1)}[len(n.Children)%2]
+					}
+				}
+				o4 := checkTraversal(root, nodes, fmt.Sprint("tree ", c.Code, " with ", what))
+				if o4.Fail != "" {
+					return o4
+				}
+				out.Evals += o4.Evals
 			}
 			return out
 		})
